@@ -40,7 +40,18 @@ Soundness limits actually implemented
     the default output against d / tree length; CSV without any labels is not generated (write_csv emits rows in set
     order, so an unlabelled table cannot be matched to taxa by anyone); row-names-only and column-names-only are;
   * summaries with fewer than two admitted taxa are not generated (NullAssemblageException is the documented outcome);
-  * path_edges (is_store_path_edges=True) is used as a workload variation; its edge lists are recorded, not judged.
+  * path_edges (is_store_path_edges=True) is used as a workload variation; its edge lists are recorded, not judged;
+  * UPGMA's size-weighted averaging cannot be observed under this property: on ultrametric input all cross-cluster
+    distances are equal, so every averaging rule gives the same tree (canaries/C14-x-... documents this).
+
+Mechanisms found on the unchanged tree (smallest witnesses are the first DIRECTED cases)
+  treemeasure.patristic_distance|path-length|unrooted-basal-bifurcation-with-one-missing-length
+      the refresh inside Tree.mrca collapses the basal bifurcation of an unrooted tree; Tree.collapse_basal_bifurcation
+      adds the deleted edge's length inside try/except and silently drops it when the kept edge has no length.
+  write_csv|requested-delimiter-not-used
+      write_csv passes its **csv_writer_kwargs dict as the positional *dialect* of csv.writer: delimiter etc. are ignored.
+  csv-matrix|*   (distances-list / sum_of_distances / mean_pairwise_distance / write_csv)
+      compile_from_dict (from_csv) fills neither the set of distinct taxon pairs nor the zero diagonal.
 """
 import io
 import itertools
@@ -67,7 +78,8 @@ LEVEL_TEXT = ("Hooks around the real distance-matrix, MRCA, NJ and UPGMA functio
 LEVEL_NOTE = ("Trusted: vf/ref.py (leaf_paths, clades, split_lengths), vf/props/_c14_util.py, the comparison code of "
               "vf/props/C14.py, TaxonNamespace.taxon_bitmask (C10), CPython csv. Coverage is what the workload reached: all "
               "shapes n <= 5, random trees <= 15 (quick) / <= 80 (thorough) leaves.")
-RULE = ("cases = directed witnesses | every rooted multifurcating shape n<=4 (quick) / n<=5 (thorough) x rooting x length pattern "
+RULE = ("cases = directed witnesses | every rooted multifurcating shape n<=4 x rooting x 9 length patterns, n=5: half of the shapes "
+        "x 1 pattern (quick) / every shape x rooting x 3 patterns (thorough) "
         "| random trees (polytomies, unifurcations, 9 length patterns, 3 namespace layouts) driven through a history "
         "matrix -> queries -> encode -> mutate -> refresh | additive matrices from random trees with positive dyadic / float "
         "lengths -> NJ | ultrametric trees -> UPGMA | CSV round trips.  non-trivial = tree with >= 3 leaves and >= 1 internal "
@@ -83,12 +95,12 @@ REACH = ["phylogeneticdistance:PhylogeneticDistanceMatrix.compile_from_tree",
          "phylogeneticdistance:PhylogeneticDistanceMatrix._calculate_mean_pairwise_distance",
          "phylogeneticdistance:PhylogeneticDistanceMatrix._calculate_mean_nearest_taxon_distance",
          "_tree:Tree.mrca", "_tree:Tree.encode_bipartitions", "treemeasure:patristic_distance"]
-MIN_EVENTS = {"pdm-entry-judged": (100000, 2000000), "ndm-entry-judged": (100000, 1000000),
+MIN_EVENTS = {"pdm-entry-judged": (100000, 5000000), "ndm-entry-judged": (100000, 1000000),
               "mrca-judged": (50000, 500000), "tm-judged": (6000, 60000),
               "summary-judged": (20000, 200000), "nj-judged": (2000, 20000), "upgma-judged": (500, 5000),
-              "csv-entry-judged": (15000, 100000), "hook:Tree.mrca:return": (50000, 500000),
+              "csv-entry-judged": (15000, 150000), "hook:Tree.mrca:return": (50000, 500000),
               "hook:PhylogeneticDistanceMatrix.compile_from_tree:return": (2000, 20000),
-              "matrix-recompiled-from-another-tree": (100, 1000)}
+              "matrix-recompiled-from-another-tree": (100, 2000)}
 ASSUMPTIONS = ["reference path lengths / edge counts / common ancestors come from a DendroPy-free spec read from the raw child lists "
                "(vf.bridge.extract) at the moment of each hooked call",
                "TaxonNamespace.taxon_bitmask is taken as the given taxon->bit assignment (its stability is C10)",
@@ -1085,16 +1097,14 @@ def cases(tier, seed):
         for idx in range(len(shapes)):
             if (idx + seed) % 2 == 0:
                 yield {"kind": "shape", "n": 5, "idx": idx, "rooted": bool(idx % 2), "pat": PATTERNS[(idx // 5) % len(PATTERNS)], "seed": seed}
-    nrand, nnj, nup, ncsv = (2000, 1500, 800, 400) if tier == "quick" else (16000, 16000, 7000, 4000)
-    for i in range(max(nrand, nnj, nup, ncsv)):     # interleaved so that every shard sees every kind
-        if i < nrand:
-            yield {"kind": "random", "i": i, "seed": seed}
-        if i < nnj:
-            yield {"kind": "nj", "i": i, "seed": seed}
-        if i < nup:
-            yield {"kind": "upgma", "i": i, "seed": seed}
-        if i < ncsv:
-            yield {"kind": "csv", "i": i, "seed": seed}
+    nrand, nnj, nup, ncsv = (2600, 2000, 1000, 500) if tier == "quick" else (16000, 16000, 7000, 4000)
+    rest = []
+    for kind, k in (("random", nrand), ("nj", nnj), ("upgma", nup), ("csv", ncsv)):
+        rest.extend({"kind": kind, "i": i, "seed": seed} for i in range(k))
+    # deterministic shuffle: every shard (i % nshards) sees every kind in proportion, whatever the shard count
+    random.Random("C14-order/%s/%s" % (tier, seed)).shuffle(rest)
+    for c in rest:
+        yield c
 
 
 def _listify(x):
@@ -1105,6 +1115,8 @@ def run_case(case, ctx):
     rng = random.Random("%s/%s" % (case["seed"], sorted((k, str(v)) for k, v in case.items())))
     with warnings.catch_warnings():
         warnings.simplefilter("ignore")
+        from dendropy.utility import deprecate
+        deprecate.configure_deprecation_warning_behavior("ignore")   # the deprecated PatristicDistanceMatrix alias is one route
         with Hooks(ctx) as hooks:
             mon = Monitor(ctx, rng)
             mon.install(hooks)
